@@ -1,4 +1,5 @@
 import TypedpyModel.Lemmas.LiftStruct
+import TypedpyModel.Lemmas.LiftIdSeq
 namespace Typedpy
 open PyVal (pyEq pyMem pyNodup)
 
@@ -121,17 +122,24 @@ theorem okEq_field (O : Oracles) (opts : DeserOpts) : ∀ (f : FieldDecl) (d : P
   | .enumCls cls names, d, _, _ => okEq_enumCls O opts cls names d
   | .seqOf k f sz, d, hex, hj => by
     simp only [exactDecl, and_true_iff] at hex
-    have hu : sz.uniq = false := by simpa using hex.1
     cases d with
     | list xs =>
       have hj' : strictJsonList xs = true := by simpa [strictJson] using hj
       have hpt : ∀ x ∈ xs, OkEq (deserThen O opts f x) (liftThen O opts f x) := fun x hx =>
         okEq_field O opts f x hex.2 (strictJsonList_mem xs hj' x hx)
-      have := seq_assemble k sz (fun _ => true) (mapE (deser O opts false f)) (mapE (validate O f))
-        (mapO (lift O opts f)) hu (mapE_length _) (mapO_length _) xs (lf_list_equiv O opts f xs hpt)
-      simp only [deserThen, liftThen, deser, lift, validate, listDoc, PyVal.isNone, Bool.false_and,
-        Bool.false_eq_true, if_false, Option.bind_some]
-      exact this
+      by_cases hu : sz.uniq = false
+      · have := seq_assemble k sz (fun _ => true) (mapE (deser O opts false f)) (mapE (validate O f))
+          (mapO (lift O opts f)) hu (mapE_length _) (mapO_length _) xs (lf_list_equiv O opts f xs hpt)
+        simp only [deserThen, liftThen, deser, lift, validate, listDoc, PyVal.isNone, Bool.false_and,
+          Bool.false_eq_true, if_false, Option.bind_some]
+        exact this
+      · have hid : idScalar f = true := by
+          have := hex.1
+          simp only [Bool.or_eq_true, Bool.not_eq_true'] at this
+          rcases this with h | h
+          · exact absurd h hu
+          · exact h
+        exact seq_id_okEq O opts k sz f hid xs hpt
     | _ =>
       first
       | (simp [strictJson] at hj; done)
@@ -156,17 +164,24 @@ theorem okEq_field (O : Oracles) (opts : DeserOpts) : ∀ (f : FieldDecl) (d : P
           simp [deserThen, liftThen, deser, lift, dSeq, docSeq, listDoc, bindE, PyVal.isNone] at hz)
   | .tupleOf f u, d, hex, hj => by
     simp only [exactDecl, and_true_iff] at hex
-    have hu : u = false := by simpa using hex.1
     cases d with
     | list xs =>
       have hj' : strictJsonList xs = true := by simpa [strictJson] using hj
       have hpt : ∀ x ∈ xs, OkEq (deserThen O opts f x) (liftThen O opts f x) := fun x hx =>
         okEq_field O opts f x hex.2 (strictJsonList_mem xs hj' x hx)
-      have := tuple_assemble u (fun _ => true) (mapE (deser O opts false f)) (mapE (validate O f))
-        (mapO (lift O opts f)) hu (mapE_length _) (mapO_length _) xs (lf_list_equiv O opts f xs hpt)
-      simp only [deserThen, liftThen, deser, lift, validate, listDoc, PyVal.isNone, Bool.false_and,
-        Bool.false_eq_true, if_false, Option.bind_some]
-      exact this
+      by_cases hu : u = false
+      · have := tuple_assemble u (fun _ => true) (mapE (deser O opts false f)) (mapE (validate O f))
+          (mapO (lift O opts f)) hu (mapE_length _) (mapO_length _) xs (lf_list_equiv O opts f xs hpt)
+        simp only [deserThen, liftThen, deser, lift, validate, listDoc, PyVal.isNone, Bool.false_and,
+          Bool.false_eq_true, if_false, Option.bind_some]
+        exact this
+      · have hid : idScalar f = true := by
+          have := hex.1
+          simp only [Bool.or_eq_true, Bool.not_eq_true'] at this
+          rcases this with h | h
+          · exact absurd h hu
+          · exact h
+        exact tuple_id_okEq O opts u f hid xs hpt
     | _ =>
       first
       | (simp [strictJson] at hj; done)
